@@ -967,3 +967,150 @@ func errSource(v ssa.Value) string {
 	}
 	return "err"
 }
+
+func init() {
+	addRule("C13", &core.Rule{ID: "C13.when-table", Floor: 2, Run: c13WhenTable,
+		Doc: "Exact decision of both rate limiters' When: inside a granted frame (last is in the future) the remaining time to `last` is returned; otherwise, when the next allowed instant last+interval is already past, the item runs now (0 for reloads, the short wait for reconciliations); otherwise the time to that instant is returned. An inverted test grants immediate runs inside the interval."})
+}
+
+func c13WhenTable(c *core.Ctx) {
+	for _, fn := range limiterWhens(c) {
+		name := core.FuncName(fn)
+		t := core.ExtractTable(fn)
+		if t.Err != "" {
+			c.Undecided(name+" decision", c.Pos(fn.Pos()), t.Err)
+			continue
+		}
+		b, err := t.Bind(matchers{
+			"scheduled": has("(time.Time).After(", ".last", "time.Now()"),
+			"past":      has("(time.Time).Before(", "(time.Time).Add(", "time.Now()"),
+		})
+		if err != nil {
+			c.Undecided(name+" decision", c.Pos(fn.Pos()), err.Error())
+			continue
+		}
+		cls := t.ReturnClasses(func(r *ssa.Return) string {
+			k := core.Key(core.Results(r)[0])
+			switch {
+			case strings.HasPrefix(k, "(time.Time).Sub(") && strings.Contains(k, ".last, time.Now()") && !strings.Contains(k, "Add("):
+				return "remaining"
+			case strings.HasPrefix(k, "(time.Time).Sub((time.Time).Add("):
+				return "until-next"
+			case k == "0" || strings.HasSuffix(k, ".wait"):
+				return "now"
+			}
+			return "other:" + k
+		})
+		ok, diff, _ := t.CompareClasses(cls, b, func(v map[string]bool) string {
+			switch {
+			case v["scheduled"]:
+				return "remaining"
+			case v["past"]:
+				return "now"
+			}
+			return "until-next"
+		})
+		c.Check(ok, name+" decision", c.Pos(fn.Pos()), "remaining | now | until-next by (last in future, last+interval in past)", diff)
+	}
+}
+
+func init() {
+	doc := "WorkQueue.process tells its worker loop to stop only at shutdown: it returns false exactly when queue.Get reports shutdown and true after every processed item, failed or not (a false after a failed sync would end the worker: nothing queued, including the retry, is processed any more)."
+	addRule("C12", &core.Rule{ID: "C12.worker-continues", Floor: 1, Run: workerContinues, Doc: doc})
+	addRule("C13", &core.Rule{ID: "C13.worker-continues", Floor: 1, Run: workerContinues, Doc: doc})
+}
+
+func workerContinues(c *core.Ctx) {
+	fn := c.Fn("utils/workqueue", "WorkQueue.process")
+	if fn == nil {
+		return
+	}
+	tableRule(c, "WorkQueue.process continues unless shut down", fn, 0, matchers{
+		"shutdown": func(k string) bool { return strings.Contains(k, ".Get(") && strings.HasSuffix(k, "#1") },
+		"failed":   has("w.sync(", "!= nil)"),
+	}, func(v map[string]bool) bool { return !v["shutdown"] })
+}
+
+func init() {
+	doc := "Protocol of sock.Send: the interactive `prompt` is sent exactly for a multi-command batch on a non persistent socket; every command's answer is appended to the result (one answer per command, in order: the callers validate each by position); a command error returns what was collected together with the error; the connection is closed at the end exactly when the socket is not persistent; the mutex is released on every exit."
+	addRule("C02", &core.Rule{ID: "C02.socket-protocol", Floor: 5, Run: socketProtocol, Doc: doc})
+	addRule("C12", &core.Rule{ID: "C12.socket-protocol", Floor: 5, Run: socketProtocol, Doc: doc})
+}
+
+func socketProtocol(c *core.Ctx) {
+	fn := c.Fn("haproxy/socket", "sock.Send")
+	if fn == nil {
+		return
+	}
+	keep := has("s.keepalive")
+	multi := has("builtin:len(command) > 1")
+	for _, s := range core.CallsNamed(fn, false, "(*haproxy/socket.sock).send") {
+		if core.IsConstString(s.Common().Args[1], "prompt") {
+			c.Check(guardedBy(s.Instr, keep, false) && guardedBy(s.Instr, multi, true), "prompt is sent for a multi-command batch on a non persistent socket", at(c, s.Instr), "", "the `prompt` command is not on the branch `!keepalive && len(command) > 1`: a batch is answered only for its first command, or a persistent master socket is switched to prompt mode")
+			continue
+		}
+		// per-command send: inside the loop over the commands
+		l := core.InnermostLoop(fn, s.Instr.Block())
+		c.Check(l != nil && strings.Contains(core.Key(s.Common().Args[1]), "command["), "every command of the batch is sent", at(c, s.Instr), "", "send is not called per element of `command`: "+core.Key(s.Common().Args[1]))
+		// its answer is appended on the success branch, unconditionally otherwise
+		okApp := false
+		for _, b := range fn.Blocks {
+			for _, in := range b.Instrs {
+				call, ok := in.(*ssa.Call)
+				if !ok || core.CalleeName(&call.Call) != "builtin:append" || call.Type().String() != "[]string" {
+					continue
+				}
+				la := sliceLeaves(c.Env, call.Call.Args[1], 0)
+				if !leavesContain(la, "sock).send") {
+					continue
+				}
+				used := false
+				for _, r := range *call.Referrers() {
+					if _, isPhi := r.(*ssa.Phi); isPhi {
+						used = true
+					}
+				}
+				var extra []string
+				for _, g := range guardsOf(call) {
+					k := core.StripVersion(g.Key)
+					if strings.Contains(k, "sock).send(") && strings.HasSuffix(k, "#1 != nil)") && !g.Branch {
+						continue
+					}
+					if strings.Contains(k, "phi{") || strings.Contains(k, "next(range(") || strings.Contains(k, "builtin:len(command)") && !strings.Contains(k, "> 1") {
+						continue // loop condition
+					}
+					if strings.Contains(k, "observer") {
+						extra = append(extra, k)
+						continue
+					}
+					extra = append(extra, k)
+				}
+				okApp = used && len(extra) == 0
+				c.Check(okApp, "every answer is collected", at(c, call), "", fmt.Sprintf("the answer is appended under %v (or the result of append is dropped: %v): answers shift against the commands they belong to", extra, !used))
+			}
+		}
+		if !okApp {
+			c.Check(false, "answers are collected", at(c, s.Instr), "", "no `msg = append(msg, response)` for the command's answer")
+		}
+	}
+	// final close iff !keepalive
+	nFinal := 0
+	for _, s := range core.CallsNamed(fn, false, "(*haproxy/socket.sock).close") {
+		if guardedBy(s.Instr, func(k string) bool { return strings.Contains(k, "sock).send(") && strings.HasSuffix(k, "!= nil)") }, true) {
+			continue // error paths (C12.conn-dropped-on-error)
+		}
+		nFinal++
+		c.Check(guardedBy(s.Instr, keep, false), "a non persistent socket is closed after the batch", at(c, s.Instr), "", "the final close is not on the `!keepalive` branch: the dynamic-update socket stays connected to a process that a reload replaces, or the master socket is reconnected for every command")
+	}
+	c.Check(nFinal == 1, "final close", c.Pos(fn.Pos()), "", fmt.Sprint(nFinal))
+	// unlock deferred
+	okUnlock := false
+	for _, b := range fn.Blocks {
+		for _, in := range b.Instrs {
+			if d, ok := in.(*ssa.Defer); ok && strings.HasSuffix(core.CalleeName(&d.Call), "sock).unlock") && b == fn.Blocks[0] {
+				okUnlock = true
+			}
+		}
+	}
+	c.Check(okUnlock, "the socket mutex is released on every exit", c.Pos(fn.Pos()), "", "no deferred unlock in the entry block")
+}
